@@ -50,7 +50,7 @@ inline bool guard_free(void* p) {
 
 namespace led {
 
-struct rec { void* p; size_t bytes; int resource; long serial; };
+struct rec { void* p; size_t bytes; int resource; long serial; void* base; };
 
 struct ledger_t {
     std::map<void*, rec> live;
@@ -59,6 +59,9 @@ struct ledger_t {
     long fail_at = -1;          // the k-th allocation from now throws (0 = next); -1 = never
     long alloc_points = 0;      // allocations seen since reset_points()
     int backing = 0;            // 0 malloc, 1 guard trailing, 2 guard leading
+    int misalign = 0;           // malloc backing: k>0 = hand out p == k (mod 64), k = the alignment of the
+                                // element type: the worst legal address for every row alignment an image may
+                                // request (the block end stays exact for ASan)
     std::vector<std::string> anomalies;
     size_t live_bytes() const { size_t s = 0; for (auto& kv : live) s += kv.second.bytes; return s; }
 };
@@ -71,11 +74,28 @@ inline void* do_allocate(size_t bytes, int resource) {
     ++l.alloc_points;
     if (l.fail_at == 0) { l.fail_at = -1; throw std::bad_alloc(); }
     if (l.fail_at > 0) --l.fail_at;
-    void* p;
-    if (l.backing == 0) { p = malloc(bytes ? bytes : 1); if (!p) throw std::bad_alloc(); }
+    void* p; void* base = nullptr;
+    if (l.backing == 0) {
+        size_t nb = bytes ? bytes : 1;
+        if (!l.misalign) { base = malloc(nb); if (!base) throw std::bad_alloc(); p = base; }
+        else {
+            // find r with (malloc(r+nb)+r) == misalign (mod 64): the block still ends exactly at p+nb
+            const size_t k = (size_t)l.misalign & 63;
+            void* failed[16]; int nf = 0; p = nullptr;
+            for (int t = 0; t < 16 && !p; ++t) {
+                size_t r = (k + 64 - 16 * (size_t)(t & 3)) & 63;          // guesses for base == 0,16,32,48 (mod 64)
+                if (t >= 8) r = (r + 8) & 63;                               // 8-aligned bases
+                void* b = malloc(r + nb); if (!b) throw std::bad_alloc();
+                if ((((uintptr_t)b + r) & 63) == k) { base = b; p = (char*)b + r; }
+                else failed[nf++] = b;
+            }
+            if (!p) { base = failed[--nf]; p = base; }   // no luck: plain malloc alignment
+            for (int t = 0; t < nf; ++t) free(failed[t]);
+        }
+    }
     else p = gb::guard_alloc(bytes, l.backing == 1 ? gb::TRAILING : gb::LEADING);
     memset(p, 0xCD, bytes);
-    rec r = {p, bytes, resource, ++l.serial};
+    rec r = {p, bytes, resource, ++l.serial, base};
     if (l.live.count(p)) anomaly("allocator returned a live pointer");
     l.live[p] = r;
     ++l.n_alloc;
@@ -88,7 +108,7 @@ inline void do_deallocate(void* p, size_t bytes, int resource) {
     if (it == l.live.end()) { anomaly(vh::cat("deallocate of a pointer that is not live (double free or foreign pointer), bytes=", bytes, " resource=", resource)); return; }
     if (it->second.bytes != bytes) anomaly(vh::cat("deallocate size ", bytes, " != allocate size ", it->second.bytes));
     if (it->second.resource != resource) anomaly(vh::cat("deallocate through resource ", resource, " of a block allocated from resource ", it->second.resource));
-    if (l.backing == 0) free(p); else gb::guard_free(p);
+    if (l.backing == 0) free(it->second.base); else gb::guard_free(p);
     l.live.erase(it);
 }
 
